@@ -17,7 +17,7 @@ from .. import env, coq, runner, gates, tables, opsem, circuits as gcirc, mcircu
 
 LEVEL = 'translation_validation'
 META = dict(
-    text='Translation validation with proven components. Coq theorems: the trace-equivalence validator run on the real output of every "move, never change" transformer is sound AND complete (it accepts exactly the reorderings obtained by exchanging adjacent operations that share no qubit, no measurement key and no measured/controlling key pair), the projection lemma, trace-equivalent operation lists compute the same tensor for every ring, rank and input and keep every per-key measurement order; every constant gauge emitted by the gauge-compiling transformers satisfies (post0 x post1) . G\' . (pre0 x pre1) = c . G with |c| = 1 exactly in Q(zeta_8) (float instance to 2^-30 where entries are outside the field) and every dynamical-decoupling base sequence multiplies to a scalar; the phase-tracking loop of eject_z keeps the invariant Phi(tracked phases) . emitted = original prefix and emits an equal circuit for every denotation satisfying the commutation laws. A Pauli-basis measurement enters the reference semantics through its signed observable s.P as the keyed pair [(I+sP)/2; (I-sP)/2], proven (exactly, all strings of length <= 3, both signs) to be the complementary orthogonal self-adjoint idempotent resolution of s.P. On every run each exported transformer x options (tags_to_ignore, deep, tolerances, strategies) is executed on generated circuits (unitary, measured, classically controlled, tagged, nested, parameterised; measurement-like operations that are not a MeasurementGate: Pauli-basis measurements and keyed channels; circuits over few gates in many placements) and on two fixed grids (every kind of phase / flip in front of Pauli-basis measurements and keyed channels, for every transformer that accepts measurements; every overlapping placement of gate pairs whose commutation depends on the placement, for the commutation-based sorter; with tags_to_ignore set, an operation carrying the ignored tag - diagonal or not, one or two qubits, a measurement, a negligible gate - between phases / flips / mergeable gates and the measurements of the same qubits, for every transformer that takes tags_to_ignore; measurements that are last on their qubits but whose record a later classically controlled operation consumes, for every transformer that accepts measurements) and its output is compared with its input inside Coq through the reference semantics: same unitary up to global phase, or same joint distribution of per-key measurement records with the same conditional state on the qubits that are not terminally measured; defer/dephase/drop_terminal_measurements, lightcone_filter and the symbolized merge under their documented contracts; every branch of every gauge selector is enumerated with a scripted prng through both entry points (the one-shot call and as_sweep resolved with its sweep point) on the canonical target gates and on every other representation of them that the transformer\'s own target accepts (exponent shifted by whole periods in both directions, global shift, parent class); an output that reads a measurement key it does not record first (while the input does) is not executable and is reported; the eject_z model is compared with the real transformer; IdleMomentsGauge (exported by the gauge_compiling sub-package only; its exports are frozen too): a model of the transformer in the shape of the code (windows from the active moments of each qubit, G merged after the gate that opens the window, G^-1 merged before the gate that closes it) is proven to keep the operator of the circuit up to the central scalar G^-1 . G for every window whose inner moments are free and whose ends are free or mergeable, for every denotation in a monoid in which the single-qubit gates of a qubit commute with what the other qubits do, and the variant that merges the inverse after the closing gate is refuted; on every run the transformer is executed through a scripted numpy Generator on fixed shapes (one idle window opened / closed by non-Pauli gates H, T, X**0.5, a general PhasedXZ, by Paulis, tagged gates, two-qubit gates, operations and moments carrying the ignored tag, the beginning / end of the circuit, one-moment windows, windows sharing a gate, windows on two qubits, windows next to measurements / channels) with every window taking every index of the gauge tuple for gauges = pauli, clifford, inv_clifford and a custom tuple, and on generated sparse circuits with random draws; each run is compared with its input through the reference semantics and with the model run on the same draws (windows decided sound inside Coq), and gauges / gauges_inverse are checked to be inverse pairs; ignored-tag operations untouched, sub-circuits untouched unless deep, argument unchanged.',
+    text='Translation validation with proven components. Coq theorems: the trace-equivalence validator run on the real output of every "move, never change" transformer is sound AND complete (it accepts exactly the reorderings obtained by exchanging adjacent operations that share no qubit, no measurement key and no measured/controlling key pair), the projection lemma, trace-equivalent operation lists compute the same tensor for every ring, rank and input and keep every per-key measurement order; every constant gauge emitted by the gauge-compiling transformers satisfies (post0 x post1) . G\' . (pre0 x pre1) = c . G with |c| = 1 exactly in Q(zeta_8) (float instance to 2^-30 where entries are outside the field) and every dynamical-decoupling base sequence multiplies to a scalar; the phase-tracking loop of eject_z keeps the invariant Phi(tracked phases) . emitted = original prefix and emits an equal circuit for every denotation satisfying the commutation laws, including the PhasedXZ bookkeeping (the gate is emitted with z exponent 0, its z part joins the tracked phase, every operation forgets the marks of its qubits, the final phase of a qubit whose last operation is still that gate is written into it: equal to appending the Z gate because Z rotations commute with operations on other qubits; writing into a gate that is followed by another operation on its qubit is refuted by a 2x2 integer witness). A Pauli-basis measurement enters the reference semantics through its signed observable s.P as the keyed pair [(I+sP)/2; (I-sP)/2], proven (exactly, all strings of length <= 3, both signs) to be the complementary orthogonal self-adjoint idempotent resolution of s.P. On every run each exported transformer x options (tags_to_ignore, deep, tolerances, strategies) is executed on generated circuits (unitary, measured, classically controlled, tagged, nested, parameterised; measurement-like operations that are not a MeasurementGate: Pauli-basis measurements and keyed channels; circuits over few gates in many placements) and on two fixed grids (every kind of phase / flip in front of Pauli-basis measurements and keyed channels, for every transformer that accepts measurements; every overlapping placement of gate pairs whose commutation depends on the placement, for the commutation-based sorter; with tags_to_ignore set, an operation carrying the ignored tag - diagonal or not, one or two qubits, a measurement, a negligible gate - between phases / flips / mergeable gates and the measurements of the same qubits, for every transformer that takes tags_to_ignore; measurements that are last on their qubits but whose record a later classically controlled operation consumes, for every transformer that accepts measurements; a holder (general PhasedXZ gate, PhasedXZ / PhasedX flip) followed by an operation nothing can be carried across (every swap-like gate, sub-circuits, operations with the ignored tag, a classically controlled operation), then a phase or flip, then the end of the circuit / an opaque gate / gates that take the phase, also one level down with deep=True, for the ejecting transformers; nested circuits (repeated, tagged, twice nested sub-circuits holding empty moments, phases, mergeable, composite and negligible gates, a measurement) passed as a mutable cirq.Circuit with deep=True to every transformer that accepts sub-circuits) and its output is compared with its input inside Coq through the reference semantics: same unitary up to global phase, or same joint distribution of per-key measurement records with the same conditional state on the qubits that are not terminally measured; defer/dephase/drop_terminal_measurements, lightcone_filter and the symbolized merge under their documented contracts; every branch of every gauge selector is enumerated with a scripted prng through both entry points (the one-shot call and as_sweep resolved with its sweep point) on the canonical target gates and on every other representation of them that the transformer\'s own target accepts (exponent shifted by whole periods in both directions, global shift, parent class); an output that reads a measurement key it does not record first (while the input does) is not executable and is reported; the eject_z model is compared with the real transformer on drawn operation lists over its alphabet (Z, PhasedXZ, phaseable gates, swap-like gates, measurements, opaque operations: phase_by undefined, Pauli-basis measurement, ignored tag, sub-circuit) and on a fixed grid (PhasedXZ; one operation of every kind; phase; every kind of tail), each real output also judged by the reference semantics; map_moments with map functions that change the circuit (one operation per moment: trace validated; a phase layer behind every moment: compared with the circuit built from the specification of the primitive); IdleMomentsGauge (exported by the gauge_compiling sub-package only; its exports are frozen too): a model of the transformer in the shape of the code (windows from the active moments of each qubit, G merged after the gate that opens the window, G^-1 merged before the gate that closes it) is proven to keep the operator of the circuit up to the central scalar G^-1 . G for every window whose inner moments are free and whose ends are free or mergeable, for every denotation in a monoid in which the single-qubit gates of a qubit commute with what the other qubits do, and the variant that merges the inverse after the closing gate is refuted; on every run the transformer is executed through a scripted numpy Generator on fixed shapes (one idle window opened / closed by non-Pauli gates H, T, X**0.5, a general PhasedXZ, by Paulis, tagged gates, two-qubit gates, operations and moments carrying the ignored tag, the beginning / end of the circuit, one-moment windows, windows sharing a gate, windows on two qubits, windows next to measurements / channels) with every window taking every index of the gauge tuple for gauges = pauli, clifford, inv_clifford and a custom tuple, and on generated sparse circuits with random draws; each run is compared with its input through the reference semantics and with the model run on the same draws (windows decided sound inside Coq), and gauges / gauges_inverse are checked to be inverse pairs; ignored-tag operations untouched, sub-circuits untouched unless deep, argument unchanged.',
     note='Level translation_validation: the quantifier over programs is sampled for every rewriting pass; only the reorder-only family is decided by a theorem applied to each real output (and eject_z by a model theorem plus correspondence over a restricted alphabet). Trusted: Coq kernel (primitive floats for the float-instance theorem); float instance (tolerance 1e-6) for the numeric comparison; each operation\'s own cirq.unitary / cirq.kraus / measurement description (tied to the documented matrices by C03/C04/C09) and CircuitOperation.mapped_circuit for flattening (C12); Python adapters (operation identification by Cirq equality, resources through cirq.measurement_key_objs / cirq.control_keys, cirq.phase_by as the phased gate of the eject_z correspondence). Routing, target gatesets and analytical decompositions exported from the same package belong to C07/C15; map_clean_and_borrowable_qubits is not exercised; RandomizedMeasurements changes the measured basis by design.',
     technique='Rocq/Coq proof of a sound and complete trace-equivalence validator + exact gauge identities in Q(zeta_8) + model of the eject_z loop with its invariant + vm_compute translation validation of every transformer output against the reference semantics',
 )
@@ -716,6 +716,92 @@ def ignored_grid(cirq):
     ]
 
 
+def swaplike_gates(cirq):
+    """every representation of a gate that exchanges the two qubits up to phases (what a phase tracker must carry across)"""
+    return [cirq.SWAP, cirq.ISWAP, cirq.ISWAP ** -1, cirq.FSimGate(theta=np.pi / 2, phi=0.3), cirq.ISWAP ** 3, cirq.FSimGate(theta=-np.pi / 2, phi=0.0)]
+
+
+def absorb_grid(cirq):
+    """Deterministic part of the 'something the transformer holds on a qubit; an operation it cannot carry it across; more of it;
+    the end' class, for the phase / flip ejecting transformers: a holder on qubit a (a general PhasedXZ gate - whose z part
+    eject_z keeps open for a later phase -, a PhasedXZ flip, a PhasedX flip), then a barrier (every swap-like gate, a one- and
+    a two-qubit sub-circuit, a one- and a two-qubit operation carrying the ignored tag, a classically controlled operation),
+    then a phase or a flip on the same qubit, then the end of the circuit / a gate that is opaque to phases / gates that take
+    them; and the same one level down for deep=True.  Returns (name, circuit, deep)."""
+    a, b = cirq.LineQubit.range(2)
+    holders = [('PhXZ', cirq.PhasedXZGate(x_exponent=0.3, z_exponent=0.4, axis_phase_exponent=0.2)),
+               ('PhXZ flip', cirq.PhasedXZGate(x_exponent=1.0, z_exponent=0.0, axis_phase_exponent=-0.25)),
+               ('PhX flip', cirq.PhasedXPowGate(phase_exponent=0.25, exponent=1.0))]
+    followers = [('Z**0.5', cirq.Z ** 0.5), ('Z**-0.3', cirq.Z ** -0.3), ('X', cirq.X)]
+    barriers = [(str(g), lambda g=g: [g.on(a, b)]) for g in swaplike_gates(cirq)[:4]] + [
+        ('sub-circuit(H)', lambda: [cirq.CircuitOperation(cirq.FrozenCircuit(cirq.H(a)))]),
+        ('sub-circuit(CNOT,H)x2', lambda: [cirq.CircuitOperation(cirq.FrozenCircuit(cirq.CNOT(a, b), cirq.H(a))).repeat(2)]),
+        ('H[ign]', lambda: [cirq.H(a).with_tags(IGN)]),
+        ('CNOT[ign]', lambda: [cirq.CNOT(b, a).with_tags(IGN)]),
+        ('X controlled by a record', lambda: [cirq.measure(b, key='m'), cirq.X(a).with_classical_controls('m')]),
+    ]
+    tails = [('end', lambda: []), ('H', lambda: [cirq.H(a)]), ('CZ, X**0.5', lambda: [cirq.CZ(a, b), cirq.X(b) ** 0.5])]
+    out = []
+    for (hn, h), (bn, mk) in itertools.product(holders, barriers):
+        for ti, (tn, tail) in enumerate(tails):
+            for fn, f in (followers if ti == 0 else followers[:1]):
+                c = cirq.Circuit([cirq.Y(b) ** 0.25, h.on(a)] + mk() + [f.on(a)] + tail(), strategy=cirq.InsertStrategy.NEW)
+                out.append((f'{hn}; {bn}; {fn}; {tn}', c, False))
+    for (hn, h), (bn, mk) in itertools.product(holders, (barriers[0], barriers[3], barriers[6])):
+        inner = cirq.FrozenCircuit([h.on(a)] + mk() + [cirq.Z(a) ** 0.5, cirq.H(b)], strategy=cirq.InsertStrategy.NEW)
+        out.append((f'one level down: [{hn}; {bn}; Z**0.5; H]', cirq.Circuit(cirq.X(a) ** 0.5, cirq.CircuitOperation(inner), cirq.CZ(a, b)), True))
+    return out
+
+
+def nested_grid(cirq):
+    """Deterministic part of the 'sub-circuits that the transformer has something to do in' class, run with deep=True on a mutable
+    cirq.Circuit argument: the nested circuits hold empty moments, phases in front of flips, runs of single-qubit gates, composite
+    gates, negligible gates, operations that can be moved left / right and (measured variant) phases in front of a measurement;
+    repeated, tagged (innocent and ignored) and twice-nested sub-circuit operations.  Every oracle applies; in particular the
+    argument, down to the innermost sub-circuit, must be what it was.  Returns (name, circuit, measured?, ignore?)."""
+    q0, q1 = cirq.LineQubit.range(2)
+    M = cirq.Moment
+    sub1 = cirq.FrozenCircuit(M(cirq.H(q0), cirq.Z(q1) ** 0.25), M(), M(cirq.Z(q0), cirq.X(q1) ** 0.5), M(cirq.X(q0) ** 0.5, cirq.Z(q1) ** 1e-10),
+                              M(cirq.CNOT(q0, q1)), M(cirq.S(q1)), M(cirq.Y(q0) ** 0.25))
+    n1 = cirq.Circuit(M(cirq.X(q1)), M(), M(cirq.CircuitOperation(sub1).repeat(2)), M(cirq.T(q0)), M(cirq.H(q0)))
+    inner = cirq.FrozenCircuit(M(cirq.Z(q0) ** 0.5), M(), M(cirq.X(q0) ** 0.5, cirq.H(q1)), M(cirq.CZ(q0, q1)), M(cirq.Y(q1)))
+    mid = cirq.FrozenCircuit(M(cirq.H(q0)), M(cirq.CircuitOperation(inner)), M(), M(cirq.S(q0), cirq.T(q1)), M(cirq.X(q1)))
+    n2 = cirq.Circuit(M(cirq.CircuitOperation(mid).with_tags(KEEP)), M(), M(cirq.CircuitOperation(inner).with_tags(IGN)), M(cirq.Y(q0) ** 0.5, cirq.Z(q1)),
+                      M(cirq.CircuitOperation(inner)), M(cirq.ISWAP(q0, q1)))
+    sub3 = cirq.FrozenCircuit(M(cirq.H(q0), cirq.X(q1) ** 0.5), M(), M(cirq.Z(q0) ** 0.5, cirq.S(q1)), M(cirq.CZ(q0, q1)), M(cirq.T(q0)), M(cirq.Z(q0)), M(cirq.measure(q0, key='a')))
+    n3 = cirq.Circuit(M(cirq.X(q0) ** 0.3), M(cirq.CircuitOperation(sub3)), M(), M(cirq.H(q1)), M(cirq.Z(q1)), M(cirq.measure(q1, key='b')))
+    return [('repeated sub-circuit', n1, False, False), ('twice nested, tagged sub-circuits', n2, False, True), ('sub-circuit ending in a measurement', n3, True, False)]
+
+
+def gen_absorb(cirq, rng):
+    """Short circuits dense in what the ejecting transformers hold (PhasedXZ gates, Pauli / PhasedX flips, phases) and in what they
+    cannot carry it across (swap-like gates, sub-circuits, gates opaque to phases), so that 'holder; barrier; phase; end' and its
+    variations are frequent; tags (through decorate) add operations with the ignored tag."""
+    n = rng.randint(2, 3)
+    qs = cirq.LineQubit.range(n)
+    c = cirq.Circuit()
+    for _ in range(rng.randint(4, 10)):
+        r = rng.random()
+        q = rng.choice(qs)
+        a, b = rng.sample(list(qs), 2)
+        if r < 0.25:
+            o = cirq.PhasedXZGate(x_exponent=rng.choice([gates.draw_exp(rng), 1.0, 0.5]), z_exponent=gates.draw_exp(rng), axis_phase_exponent=gates.draw_exp(rng)).on(q)
+        elif r < 0.5:
+            o = rng.choice([cirq.Z ** gates.draw_exp(rng), cirq.S, cirq.T, cirq.Z, cirq.rz(gates.draw_angle(rng))]).on(q)
+        elif r < 0.64:
+            o = rng.choice(swaplike_gates(cirq)).on(a, b)
+        elif r < 0.72:
+            o = cirq.CircuitOperation(cirq.FrozenCircuit(rng.choice([cirq.H(q), cirq.CNOT(a, b), cirq.X(q) ** 0.5, cirq.Z(q) ** 0.5])))
+        elif r < 0.82:
+            o = rng.choice([cirq.H, cirq.X ** gates.draw_exp(rng), cirq.Y]).on(q)
+        elif r < 0.9:
+            o = (cirq.CZ ** rng.choice([1.0, 0.5, gates.draw_exp(rng)])).on(a, b)
+        else:
+            o = rng.choice([cirq.PhasedXPowGate(phase_exponent=gates.draw_exp(rng), exponent=1.0), cirq.X, cirq.Y]).on(q)
+        c.append(o, strategy=cirq.InsertStrategy.NEW if rng.random() < 0.3 else cirq.InsertStrategy.EARLIEST)
+    return c
+
+
 def gen_param(cirq, rng):
     import sympy
     syms = [sympy.Symbol(n) for n in 'abcd']
@@ -831,6 +917,8 @@ def gen_circuit(cirq, rng, kinds, tags=True, nest=True, mods=None):
         c = gen_ejectable(cirq, rng, measured=True, general=True)
     elif kind == 'alphabet':
         c = gen_alphabet(cirq, rng)
+    elif kind == 'absorb':
+        c = gen_absorb(cirq, rng)
     elif kind in ('idle', 'idle:measured'):
         c = gen_idle(cirq, rng, measured=kind.endswith('measured'))
     elif kind.startswith('gauge:'):
@@ -842,7 +930,7 @@ def gen_circuit(cirq, rng, kinds, tags=True, nest=True, mods=None):
         c = gen_measured(cirq, rng)
     if rng.random() < 0.3:
         c.insert(rng.randint(0, len(c)), cirq.Moment())
-    if rng.random() < 0.25 and kind in ('unitary', 'ejectable', 'layers', 'alphabet'):
+    if rng.random() < 0.25 and kind in ('unitary', 'ejectable', 'layers', 'alphabet', 'absorb'):
         qs = sorted(c.all_qubits())
         c.insert(rng.randint(0, len(c)), cirq.Z(rng.choice(qs)) ** rng.choice([1e-10, 2.0, 1e-9, 4.0, 0.0]))
     return decorate(cirq, rng, c, tags=tags, nest=nest), kind
@@ -852,11 +940,12 @@ def gen_circuit(cirq, rng, kinds, tags=True, nest=True, mods=None):
 # transformer configurations
 class Cfg:
     def __init__(self, name, variant, call, cat, kinds=('unitary', 'measured'), ctx=True, deep=True, ignore=True, contract='same',
-                 reference=None, same=eq_plain, sub_exempt=False, n=1.0, tags=True, nest=True, expect_raise=None, perm=False, inplace=None):
+                 reference=None, same=eq_plain, sub_exempt=False, n=1.0, tags=True, nest=True, expect_raise=None, perm=False, inplace=None, sem_reference=None):
         self.name, self.variant, self.call, self.cat, self.kinds = name, variant, call, cat, kinds
         self.ctx, self.deep, self.ignore, self.contract = ctx, deep, ignore, contract
         self.reference, self.same, self.sub_exempt, self.n = reference, same, sub_exempt, n
         self.tags, self.nest, self.expect_raise, self.perm, self.inplace = tags, nest, expect_raise, perm, inplace
+        self.sem_reference = sem_reference      # (circuit, deep, ignore) -> the circuit the output must mean the same as (default: the input)
 
     @property
     def id(self):
@@ -882,6 +971,19 @@ def unroll_reference(cirq, tags_to_check):
     def ref_circuit(c, deep):
         return cirq.Circuit(ref(c, deep))
     return ref
+
+
+def map_moments_reference(cirq, circuit, func, deep, ignore):
+    """What cirq.map_moments is documented to return, built from scratch: func applied to every moment in order (a moment or a
+    list of moments each); with deep, first inside every sub-circuit operation that does not carry an ignored tag."""
+    moments = []
+    for i, m in enumerate(circuit):
+        if deep:
+            m = cirq.Moment(op.untagged.replace(circuit=map_moments_reference(cirq, op.untagged.circuit, func, deep, ignore).freeze()).with_tags(*op.tags)
+                            if isinstance(op.untagged, cirq.CircuitOperation) and not (ignore and IGN in op.tags) else op for op in m)
+        r = func(m, i)
+        moments.extend([r] if isinstance(r, cirq.Moment) else list(r))
+    return cirq.Circuit(moments)
 
 
 def make_configs(cirq, mods):
@@ -910,11 +1012,18 @@ def make_configs(cirq, mods):
         C.append(Cfg(nm, 'tags_to_check=None', (lambda f: lambda c, context: f(c, deep=context.deep, tags_to_check=None))(f), 'reorder',
                      kinds=MEAS, ignore=False, reference=unroll_reference(cirq, None), sub_exempt=True, n=0.5))
     C.append(Cfg('map_moments', 'identity', lambda c, context: t.map_moments(c, lambda m, i: m, deep=context.deep, tags_to_ignore=context.tags_to_ignore), 'reorder', kinds=RE, n=0.4))
+    # map functions that change the circuit: one operation per moment (nothing but moves: trace validated) and a layer of phases behind
+    # every moment (the result is compared with the circuit built by the specification of the primitive, map_moments_reference)
+    split_moment = lambda m, i: [cirq.Moment([op]) for op in m]
+    C.append(Cfg('map_moments', 'one operation per moment', lambda c, context: t.map_moments(c, split_moment, deep=context.deep, tags_to_ignore=context.tags_to_ignore), 'reorder', kinds=RE, n=0.4))
+    phase_layer = lambda m, i: [m, cirq.Moment(cirq.Z(q) ** 0.25 for q in sorted(m.qubits))] if m.qubits else m
+    C.append(Cfg('map_moments', 'phase layer behind every moment', lambda c, context: t.map_moments(c, phase_layer, deep=context.deep, tags_to_ignore=context.tags_to_ignore), 'semantic', kinds=MEAS, n=0.4,
+                 sem_reference=lambda c, deep, ignore: map_moments_reference(cirq, c, phase_layer, deep, ignore), sub_exempt=False))
     C.append(Cfg('map_operations', 'identity', lambda c, context: t.map_operations(c, lambda op, i: op, deep=context.deep, tags_to_ignore=context.tags_to_ignore), 'reorder', kinds=RE, n=0.4))
     C.append(Cfg('map_operations_and_unroll', 'identity', lambda c, context: t.map_operations_and_unroll(c, lambda op, i: op, deep=context.deep, tags_to_ignore=context.tags_to_ignore), 'reorder', kinds=RE, n=0.4))
     # ---- semantic ----
     U = ('unitary', 'measured', 'terminal', 'unitary', 'gmeasured', 'alphabet')
-    EJ = U + ('ejectable', 'ejectable-gmeasured')
+    EJ = U + ('ejectable', 'ejectable-gmeasured', 'absorb', 'absorb')
     def raises_documented(kind_of_error, when):
         return lambda circuit, deep, ignore, e: isinstance(e, kind_of_error) and when(circuit, deep, ignore)
     C.append(Cfg('expand_composite', '', ctx_call(t.expand_composite), 'semantic', kinds=U, sub_exempt=True))
@@ -1029,17 +1138,18 @@ def make_configs(cirq, mods):
 
 
 # --------------------------------------------------------------------------------------------------------------------
-def run_case(ctx, cirq, cfg, circuit, kind, deep, ignore, checks, case_no, prng_seed=None):
+def run_case(ctx, cirq, cfg, circuit, kind, deep, ignore, checks, case_no, prng_seed=None, mutable=None):
     """Runs one transformer configuration on one circuit; python oracles immediately, Coq checks appended to `checks`."""
     import random
     rng = random.Random(f'{ctx.seed}:{case_no}')        # per-case stream: a case replays alone
     context = cirq.TransformerContext(deep=deep, tags_to_ignore=(IGN,) if ignore else ())
     desc = f'{cfg.id} deep={deep} tags_to_ignore={(IGN,) if ignore else ()} on {str(circuit)[:600]}'
-    if kind.startswith('grid:'):        # grid circuits are flat: the operation list reads better than the diagram
+    if kind.startswith('grid:') and not top_circuit_ops(cirq, circuit):        # flat grid circuits: the operation list reads better than the diagram
         desc = f'{cfg.id} deep={deep} tags_to_ignore={(IGN,) if ignore else ()} on {kind}: [{", ".join(str(op) for op in circuit.all_operations())[:700]}]'
-    rep = dict(config=cfg.id, deep=deep, ignore=ignore, circuit=repr(circuit), diagram=str(circuit), circuit_kind=kind)
+    rep = dict(config=cfg.id, deep=deep, ignore=ignore, circuit=repr(circuit), diagram=str(circuit), circuit_kind=kind, mutable=bool(mutable))
     before = snapshot(cirq, circuit)
-    frozen_copy = circuit.freeze() if rng.random() < 0.3 else None
+    pristine = circuit.copy()           # own list of (immutable) moments: what the argument was, whatever the call does to it
+    frozen_copy = circuit.freeze() if rng.random() < 0.3 and not mutable else None      # mutable=True: the argument is the cirq.Circuit itself
     arg = frozen_copy if frozen_copy is not None else circuit
     if getattr(cfg, 'probe', None) is not None:
         cfg.probe.saw_ignored = False
@@ -1066,7 +1176,9 @@ def run_case(ctx, cirq, cfg, circuit, kind, deep, ignore, checks, case_no, prng_
         return
     # (v) the argument is not modified
     if snapshot(cirq, circuit) != before:
-        ctx.violation(f'{cfg.name}:input-modified', f'{cfg.id} modified its argument: {desc}', dict(kind='input-modified', **rep))
+        ctx.violation(f'{cfg.name}:input-modified', f'{cfg.id} modified its argument ({type(arg).__name__}): {desc}\nthe argument after the call:\n{str(circuit)[:600]}',
+                      dict(kind='input-modified', argument_after=repr(circuit), **rep))
+        circuit = pristine              # the remaining oracles judge the output against what was passed in
     # (iii) ignored-tag operations are left untouched
     if ignore:
         miss = ignored_missing(cirq, circuit, out, deep)
@@ -1108,11 +1220,13 @@ def run_case(ctx, cirq, cfg, circuit, kind, deep, ignore, checks, case_no, prng_
         return
     # semantic comparison through the reference semantics
     c_in, c_out = circuit, out
+    if cfg.sem_reference is not None:
+        c_in = cfg.sem_reference(circuit, deep, ignore)
     if cirq.is_parameterized(circuit) or cirq.is_parameterized(out):
         names = sorted(cirq.parameter_names(circuit) | cirq.parameter_names(out))
         resolver = {nm: round(rng.uniform(-1.5, 1.5), 3) for nm in names}
         rep['resolver'] = resolver
-        c_in, c_out = cirq.resolve_parameters(circuit, resolver), cirq.resolve_parameters(out, resolver)
+        c_in, c_out = cirq.resolve_parameters(c_in, resolver), cirq.resolve_parameters(out, resolver)
     ops_in, ops_out = flatten_ops(cirq, c_in), flatten_ops(cirq, c_out)
     nontrivial = len(ops_in) >= 2 and (out != circuit)
     sem_kind = None
@@ -1121,7 +1235,7 @@ def run_case(ctx, cirq, cfg, circuit, kind, deep, ignore, checks, case_no, prng_
             # an ignored measurement / classically controlled operation cannot be both left untouched and deferred: not comparable
             raise opsem.Unsupported('defer_measurements with an ignored measurement or classically controlled operation')
         expr, sem_kind = semantic_check(cirq, rng, ops_in, ops_out, cfg.contract)
-        checks.append(dict(case=case_no, what='semantics', stream=f'{cfg.id}:{sem_kind}', expr=expr, cfg=cfg, desc=desc,
+        checks.append(dict(case=case_no, what='semantics', stream=f'{cfg.id}:{sem_kind}', expr=expr, cfg=cfg, desc=desc, light=kind.startswith('grid:') and len(circuit.all_qubits()) <= 2,
                            rep=dict(rep, output=repr(out), output_diagram=str(out), root_cause=root_cause(cirq, cfg, circuit, out, deep))))
     except opsem.Unsupported as e:
         ctx.count(cfg.id + ':unsupported', str(e), False)
@@ -1375,91 +1489,172 @@ PRE_EJECTZ = ('From Coq Require Import List ZArith Bool Arith.\nFrom VF Require 
               ' | OSwap g a c, OSwap g2 a2 c2 => Nat.eqb g g2 && Nat.eqb a a2 && Nat.eqb c c2\n'
               ' | OMeas g qs, OMeas g2 qs2 => Nat.eqb g g2 && nle qs qs2\n'
               ' | OOpaque g qs, OOpaque g2 qs2 => Nat.eqb g g2 && nle qs qs2\n'
+              ' | OPhXZ g q p z, OPhXZ g2 q2 p2 z2 => Nat.eqb g g2 && Nat.eqb q q2 && Z.eqb p p2 && Z.eqb z z2\n'
               ' | _, _ => false end.\n')
+
+
+def ejectz_item(cirq, rng, qs, i, kind=None, on=None):
+    """One operation of the eject_z model's alphabet on qubits `qs` (dyadic exponents, phase unit 1/16 turn): returns
+    (model item, cirq operation).  Kinds: Z (absorbed), X (PhasedXZ: phased, its z part absorbed, remembered as the last thing
+    on its qubit), G (phaseable gate), S (swap-like), M (measurement), O (opaque: phase_by undefined, a measurement-like operation
+    that is not a MeasurementGate, an operation carrying the ignored tag, an operation without a gate)."""
+    nq = len(qs)
+    q = rng.randrange(nq) if on is None else on
+    pair = rng.sample(range(nq), 2) if nq >= 2 else None
+    if pair and on is not None and on not in pair:
+        pair[rng.randrange(2)] = on
+    if kind is None:
+        r = rng.random()
+        kind = ('Z' if r < 0.26 else 'X' if r < 0.4 else 'G1' if r < 0.52 else 'G2' if r < 0.62 else 'S' if r < 0.74 else 'M' if r < 0.8 else 'O')
+    if kind in ('G2', 'S') and not pair:
+        kind = 'G1'
+    if kind == 'Z':
+        kk = rng.choice([1, 2, 4, 8, -2, 3, 16, -8, 12, 32, 5])
+        return ('Z', q, kk), cirq.Z(qs[q]) ** (kk / 8)
+    if kind == 'X':
+        kz = rng.choice([0, 1, 2, 4, -4, 8, 3, -6, 16, 5])
+        g = cirq.PhasedXZGate(x_exponent=rng.choice([1.0, 0.5, 0.25, -0.5, 0.375]), z_exponent=kz / 8, axis_phase_exponent=rng.choice([0.0, 0.25, 0.125, -0.5]))
+        return ('X', i, q, kz), g.on(qs[q])
+    if kind == 'G1':
+        g = rng.choice([cirq.PhasedXPowGate(phase_exponent=rng.choice([0.0, 0.25, 0.125, -0.5]), exponent=rng.choice([1.0, 0.5, 0.25])),
+                        cirq.X ** rng.choice([1.0, 0.5]), cirq.Y ** rng.choice([1.0, -0.5])])
+        return ('G', i, [q]), g.on(qs[q])
+    if kind == 'G2':
+        return ('G', i, pair), (cirq.CZ ** rng.choice([1.0, 0.5, -0.25])).on(*[qs[x] for x in pair])
+    if kind == 'S':
+        g = rng.choice([cirq.SWAP, cirq.ISWAP, cirq.ISWAP ** -1, cirq.FSimGate(theta=np.pi / 2, phi=0.3)])
+        return ('S', i, pair), g.on(*[qs[x] for x in pair])
+    if kind == 'M':
+        ms = rng.sample(range(nq), rng.randint(1, nq))
+        if on is not None and on not in ms:
+            ms[0] = on
+        return ('M', i, ms), cirq.measure(*[qs[x] for x in ms], key=f'k{i}')
+    sub = kind[2:] if kind.startswith('O:') else rng.choice(['H', 'pauli-meas', 'ign1', 'ign2', 'cop1', 'cop2'])
+    if sub in ('ign2', 'cop2') and not pair:
+        sub = sub[:-1] + '1'
+    if sub == 'H':
+        return ('O', i, [q]), cirq.H(qs[q])
+    if sub == 'pauli-meas':          # a measurement-like operation that is not a MeasurementGate does not absorb the phase: opaque
+        return ('O', i, [q]), cirq.PauliMeasurementGate(cirq.DensePauliString(rng.choice('XYZ'), coefficient=rng.choice([1, -1])), key=f'k{i}').on(qs[q])
+    if sub == 'ign1':
+        return ('O', i, [q]), (cirq.X(qs[q]) ** 0.5).with_tags(IGN)
+    if sub == 'ign2':
+        return ('O', i, pair), cirq.CZ(*[qs[x] for x in pair]).with_tags(IGN)
+    if sub == 'cop1':                # an operation without a gate
+        return ('O', i, [q]), cirq.CircuitOperation(cirq.FrozenCircuit(cirq.Y(qs[q]) ** 0.5, cirq.T(qs[q])))
+    return ('O', i, sorted(pair)), cirq.CircuitOperation(cirq.FrozenCircuit(cirq.CNOT(*[qs[x] for x in pair]), cirq.H(qs[pair[0]]))).repeat(2)
+
+
+def ejectz_model_grid(cirq):
+    """Deterministic part of the model stream: a PhasedXZ gate on qubit 0, then one operation of every kind on that qubit (nothing, a
+    Z gate, every swap-like gate, every kind of opaque operation, a measurement, phaseable gates, another PhasedXZ gate), then
+    phase, then every kind of tail (the end of the circuit, a gate that takes the phase, an opaque operation that makes it leave as
+    a Z gate, a swap-like gate).  Returns (name, [kinds]); the gates' parameters are drawn."""
+    mids = ['-', 'Z', 'S', 'S', 'S', 'O:H', 'O:pauli-meas', 'O:ign1', 'O:ign2', 'O:cop1', 'O:cop2', 'M', 'G1', 'G2', 'X']
+    tails = [[], ['Z'], ['Z', 'G1'], ['Z', 'O:H'], ['Z', 'S'], ['Z', 'G2', 'Z']]
+    out = []
+    for mi, mid in enumerate(mids):
+        for ti, tail in enumerate(tails):
+            out.append((f'PhXZ;{mid};{",".join(tail) or "end"}', ['X'] + ([] if mid == '-' else [mid]) + tail))
+    return out
 
 
 def ejectz_model_stream(ctx, cirq, checks, case_no, n):
     """Correspondence of the Gallina model of eject_z's loop (Xform/EjectZ.v) with the real transformer, over the model's alphabet
-    with dyadic exponents (phase unit 1/16 turn).  A python replica of the bookkeeping is only a bridge: Coq checks
-    model(input) == replica's symbolic output, and the real output must be trace equivalent (trace_equiv_b) to the operations the
-    replica predicts through cirq.phase_by."""
+    with dyadic exponents (phase unit 1/16 turn), on a fixed grid of neighbourhoods of a PhasedXZ gate and on drawn operation
+    lists.  A python replica of the bookkeeping is only a bridge: Coq checks model(input) == replica's symbolic output, and the
+    real output must be trace equivalent (trace_equiv_b) to the operations the replica predicts through cirq.phase_by /
+    PhasedXZGate.with_z_exponent."""
     import random
     nat = lambda xs: '[' + '; '.join(f'{int(x)}%nat' for x in xs) + ']'
     zl = lambda xs: '[' + '; '.join(coq.zlit(x) for x in xs) + ']'
-    for k in range(n):
-        rng = random.Random(f'{ctx.seed}:ejectz-model:{k}')
-        nq = rng.randint(1, 3)
-        qs = cirq.LineQubit.range(nq)
+    plans = [(f'grid:{name}', kinds) for name, kinds in ejectz_model_grid(cirq)] + [(f'random:{k}', None) for k in range(n)]
+    for k, (name, kinds) in enumerate(plans):
+        rng = random.Random(f'{ctx.seed}:ejectz-model:{name}')
         iops, cops = [], []
-        for i in range(rng.randint(2, 10)):
-            r = rng.random()
-            q = rng.randrange(nq)
-            pair = rng.sample(range(nq), 2) if nq >= 2 else None
-            if r < 0.3:
-                kk = rng.choice([1, 2, 4, 8, -2, 3, 16, -8, 12, 32, 5])
-                iops.append(('Z', q, kk)); cops.append(cirq.Z(qs[q]) ** (kk / 8))
-            elif r < 0.5:
-                g = rng.choice([cirq.PhasedXPowGate(phase_exponent=rng.choice([0.0, 0.25, 0.125, -0.5]), exponent=rng.choice([1.0, 0.5, 0.25])),
-                                cirq.X ** rng.choice([1.0, 0.5]), cirq.Y ** rng.choice([1.0, -0.5])])
-                iops.append(('G', i, [q])); cops.append(g.on(qs[q]))
-            elif r < 0.62 and pair:
-                iops.append(('G', i, pair)); cops.append((cirq.CZ ** rng.choice([1.0, 0.5, -0.25])).on(*[qs[x] for x in pair]))
-            elif r < 0.74 and pair:
-                g = rng.choice([cirq.SWAP, cirq.ISWAP, cirq.ISWAP ** -1, cirq.FSimGate(theta=np.pi / 2, phi=0.3)])
-                iops.append(('S', i, pair)); cops.append(g.on(*[qs[x] for x in pair]))
-            elif r < 0.82:
-                ms = rng.sample(range(nq), rng.randint(1, nq))
-                iops.append(('M', i, ms)); cops.append(cirq.measure(*[qs[x] for x in ms], key=f'k{i}'))
-            else:
-                c3 = rng.random()
-                if c3 < 0.25:
-                    o, oq = cirq.H(qs[q]), [q]
-                elif c3 < 0.5:      # a measurement-like operation that is not a MeasurementGate does not absorb the phase: opaque
-                    o, oq = cirq.PauliMeasurementGate(cirq.DensePauliString(rng.choice('XYZ'), coefficient=rng.choice([1, -1])), key=f'k{i}').on(qs[q]), [q]
-                elif c3 < 0.75 or not pair:
-                    o, oq = (cirq.X(qs[q]) ** 0.5).with_tags(IGN), [q]
-                else:
-                    o, oq = cirq.CZ(*[qs[x] for x in pair]).with_tags(IGN), pair
-                iops.append(('O', i, oq)); cops.append(o)
-        circuit = cirq.Circuit()
-        for o in cops:
-            circuit.append(o, strategy=cirq.InsertStrategy.NEW if rng.random() < 0.3 else cirq.InsertStrategy.EARLIEST)
+        if kinds is None:
+            nq = rng.randint(1, 3)
+            qs = cirq.LineQubit.range(nq)
+            for i in range(rng.randint(2, 10)):
+                it, o = ejectz_item(cirq, rng, qs, i)
+                iops.append(it); cops.append(o)
+            circuit = cirq.Circuit()
+            for o in cops:
+                circuit.append(o, strategy=cirq.InsertStrategy.NEW if rng.random() < 0.3 else cirq.InsertStrategy.EARLIEST)
+        else:
+            # the neighbourhood is on qubit 0: single-qubit operations go there, two-qubit ones on (0, 1) in a drawn orientation
+            nq = 2
+            qs = cirq.LineQubit.range(nq)
+            for i, kd in enumerate(kinds):
+                it, o = ejectz_item(cirq, rng, qs, i, kind=kd, on=0)
+                iops.append(it); cops.append(o)
+            if rng.random() < 0.5:
+                iops.insert(0, ('Z', 1, 3)); cops.insert(0, cirq.Z(qs[1]) ** (3 / 8))       # a phase on the other qubit, for the swaps to bring over
+            circuit = cirq.Circuit(cops, strategy=cirq.InsertStrategy.NEW)
         # the order in which the transformer visits the operations is the circuit's
         order = list(circuit.all_operations())
         idx = [next(j for j, o in enumerate(cops) if o is v) for v in order]
         iops_v, cops_v = [iops[j] for j in idx], [cops[j] for j in idx]
         # replica (bridge)
         ph = {q: 0 for q in range(nq)}
+        mark = {q: None for q in range(nq)}
         sym, exp_ops = [], []
         def dump(which):
             for x in which:
                 if ph[x] % 16:
                     sym.append(f'OZ {x}%nat {coq.zlit(ph[x])}'); exp_ops.append(cirq.Z(qs[x]) ** (ph[x] / 8))
                 ph[x] = 0
-        for (kind, a, b), o in zip(iops_v, cops_v):
+        for t, o in zip(iops_v, cops_v):
+            kind = t[0]
             if kind == 'Z':
+                _, a, b = t
+                mark[a] = None
                 ph[a] += b
+            elif kind == 'X':
+                _, a, x, kz = t
+                po = cirq.phase_by(o, -ph[x] / 16, 0) if ph[x] % 16 else o
+                sym.append(f'OPhXZ {a}%nat {x}%nat {coq.zlit(ph[x])} 0'); exp_ops.append(po.gate.with_z_exponent(0).on(qs[x]))
+                mark[x] = len(exp_ops) - 1
+                ph[x] += kz
             elif kind == 'G':
+                _, a, b = t
                 po = o
                 for pos, x in enumerate(b):
+                    mark[x] = None
                     if ph[x] % 16:
                         po = cirq.phase_by(po, -ph[x] / 16, pos)
                 sym.append(f'OGate {a}%nat {nat(b)} {zl([ph[x] for x in b])}'); exp_ops.append(po)
             elif kind == 'S':
+                _, a, b = t
+                mark[b[0]] = mark[b[1]] = None
                 ph[b[0]], ph[b[1]] = ph[b[1]], ph[b[0]]
                 sym.append(f'OSwap {a}%nat {b[0]}%nat {b[1]}%nat'); exp_ops.append(o)
             elif kind == 'M':
+                _, a, b = t
                 for x in b:
                     ph[x] = 0
+                    mark[x] = None
                 sym.append(f'OMeas {a}%nat {nat(b)}'); exp_ops.append(o)
             else:
+                _, a, b = t
+                for x in b:
+                    mark[x] = None
                 dump(b)
                 sym.append(f'OOpaque {a}%nat {nat(b)}'); exp_ops.append(o)
-        dump(range(nq))
+        for x in range(nq):          # the final dump: a qubit whose last operation is a PhasedXZ gate hands its phase to that gate
+            if mark[x] is not None:
+                j = mark[x]
+                head, zold = sym[j].rsplit(' ', 1)
+                sym[j] = f'{head} {coq.zlit(ph[x])}'
+                exp_ops[j] = exp_ops[j].gate.with_z_exponent(ph[x] / 8).on(qs[x])
+                ph[x] = 0
+            else:
+                dump([x])
         def iterm(t):
-            kind, a, b = t
-            return {'Z': lambda: f'IZ {a}%nat {coq.zlit(b)}', 'G': lambda: f'IGate {a}%nat {nat(b)}', 'S': lambda: f'ISwap {a}%nat {b[0]}%nat {b[1]}%nat',
-                    'M': lambda: f'IMeas {a}%nat {nat(b)}', 'O': lambda: f'IOpaque {a}%nat {nat(b)}'}[kind]()
+            kind = t[0]
+            return {'Z': lambda: f'IZ {t[1]}%nat {coq.zlit(t[2])}', 'G': lambda: f'IGate {t[1]}%nat {nat(t[2])}', 'S': lambda: f'ISwap {t[1]}%nat {t[2][0]}%nat {t[2][1]}%nat',
+                    'M': lambda: f'IMeas {t[1]}%nat {nat(t[2])}', 'O': lambda: f'IOpaque {t[1]}%nat {nat(t[2])}',
+                    'X': lambda: f'IPhXZ {t[1]}%nat {t[2]}%nat {coq.zlit(t[3])}'}[kind]()
         case_no += 1
         cfg = Cfg('eject_z', 'model', None, 'semantic')
         rep = dict(config=cfg.id, deep=False, ignore=True, circuit=repr(circuit), diagram=str(circuit), circuit_kind='ejectz-model', root_cause='')
@@ -1469,11 +1664,19 @@ def ejectz_model_stream(ctx, cirq, checks, case_no, n):
             ctx.violation(f'eject_z:raises:{type(e).__name__}:{error_class(str(e))}', f'eject_z raised {type(e).__name__}: {e} on\n{circuit}', dict(kind='raises', **rep))
             continue
         rep.update(output=repr(out), output_diagram=str(out))
-        checks.append(dict(case=case_no, what='ejectz', stream='eject_z[model]:model-vs-replica', cfg=cfg, rep=rep, desc=f'eject_z model on {str(circuit)[:400]}',
+        desc = f'eject_z model on {name}: [{", ".join(str(o) for o in order)[:500]}]'
+        checks.append(dict(case=case_no, what='ejectz', stream='eject_z[model]:model-vs-replica', cfg=cfg, rep=rep, desc=desc,
                            expr=f'list_eqb oop_eqb (eject_z 16 {nat(range(nq))} [{"; ".join(iterm(t) for t in iops_v)}]) [{"; ".join(sym)}]'))
-        checks.append(dict(case=case_no, what='trace', stream='eject_z[model]:output-vs-model', cfg=cfg, rep=rep, desc=f'eject_z model on {str(circuit)[:400]}',
+        checks.append(dict(case=case_no, what='trace', stream='eject_z[model]:output-vs-model', cfg=cfg, rep=rep, desc=desc,
                            expr=trace_terms(cirq, exp_ops, list(out.all_operations()), eq_plain)))
-        ctx.count('eject_z[model]', [rep['circuit']], any(t[0] == 'Z' for t in iops), sample=dict(transformer='eject_z[model]', circuit=str(circuit)[:300], output=str(out)[:300]))
+        # the real output judged by the property itself (reference semantics), so that a disagreement with the model comes with a verdict
+        try:
+            expr, skind = semantic_check(cirq, rng, flatten_ops(cirq, circuit), flatten_ops(cirq, out), 'same')
+            checks.append(dict(case=case_no, what='semantics', stream=f'{cfg.id}:{skind}', expr=expr, cfg=cfg, rep=rep, desc=desc, light=True))
+        except opsem.Unsupported as e:
+            ctx.count(cfg.id + ':unsupported', str(e), False)
+        ctx.count('eject_z[model]', [rep['circuit']], any(t[0] in 'ZX' for t in iops),
+                  sample=dict(transformer='eject_z[model]', case=name, circuit=str(circuit)[:300], output=str(out)[:300]))
     return case_no
 
 
@@ -1482,10 +1685,14 @@ def grid_stream(ctx, cirq, configs, checks, case_no):
     behind every kind of phase / flip, for every configuration that accepts such circuits; the placement grid for the
     configurations that decide by commutation (plain options: deep=False, no ignored tags; the random stream varies those);
     the ignored-tag grid (tags_to_ignore set, a tagged operation between operations the transformer would combine, commute or
-    drop) for every configuration that takes tags_to_ignore."""
+    drop) for every configuration that takes tags_to_ignore; the holder / barrier / phase grid for the ejecting configurations
+    (tags_to_ignore set); the nested grid (deep=True wherever the configuration takes it, the argument a mutable cirq.Circuit) for
+    every configuration that accepts sub-circuits."""
     grid = measlike_grid(cirq)
     ign_grid = ignored_grid(cirq)
     key_grid = keyflow_grid(cirq)
+    absorb = absorb_grid(cirq)
+    nested = nested_grid(cirq)
     for cfg in configs:
         kinds = set(cfg.kinds)
         if kinds & {'gmeasured', 'ejectable-gmeasured', 'pmeasured', 'gmeasured-nocc'}:
@@ -1515,6 +1722,17 @@ def grid_stream(ctx, cirq, configs, checks, case_no):
                 if takes_measured if measured else takes_unitary:
                     case_no += 1
                     run_case(ctx, cirq, cfg, circuit.copy(), 'grid:ignored:' + name, False, True, checks, case_no)
+        if 'absorb' in kinds and cfg.call is not None:
+            for name, circuit, deep in absorb:
+                case_no += 1
+                run_case(ctx, cirq, cfg, circuit.copy(), 'grid:absorb:' + name, deep and cfg.deep, cfg.ignore, checks, case_no)
+        if cfg.nest and cfg.call is not None:
+            takes_unitary = bool(kinds & {'unitary', 'layers', 'ejectable', 'alphabet'})
+            takes_measured = any(('measured' in k or 'terminal' in k) for k in kinds)
+            for name, circuit, measured, ignore in nested:
+                if takes_measured if measured else takes_unitary:
+                    case_no += 1
+                    run_case(ctx, cirq, cfg, circuit.copy(), 'grid:nested:' + name, cfg.deep, ignore and cfg.ignore, checks, case_no, mutable=True)
     return case_no
 
 
@@ -1968,7 +2186,7 @@ def run(ctx):
                 'tags (ignored / innocent), empty moments, nested (repeated, tagged) CircuitOperations, qudits for the reorder-only family; '
                 'measurement-like operations of every kind (Pauli-basis measurements X/Y/Z, +/-, 1-2 qubits, keyed Kraus / mixed-unitary channels) mid-circuit and terminal; '
                 'circuits over 2-4 distinct gates in many placements; fixed grids (measurement-like neighbourhoods x every measuring configuration, placement grid x insertion sort, '
-                'ignored-tag barrier grid x every configuration taking tags_to_ignore, consumed-record grid x every measuring configuration); gauge targets in every accepted representation '
+                'ignored-tag barrier grid x every configuration taking tags_to_ignore, consumed-record grid x every measuring configuration, holder/barrier/phase grid x ejecting configurations, nested grid (mutable argument, deep=True) x every configuration accepting sub-circuits); gauge targets in every accepted representation '
                 '(exponent modulo period, global shift) x every selector branch x {call, as_sweep}; IdleMomentsGauge: idle-window shapes x {pauli, clifford, inv_clifford, custom gauges} x every gauge index at every window, '
                 'sparse generated circuits (idle runs of 1-5 moments) x {min_length, gauge_beginning, gauge_ending, tags_to_ignore}; '
                 'non-trivial = >=2 operations and the output differs from the input; distinct by (transformer, options, circuit)')
@@ -2055,7 +2273,7 @@ def replay(ctx, data):
         if cfg is None:
             print('replay: unknown transformer configuration', cid)
             return False
-        run_case(ctx, cirq, cfg, circuit, data.get('circuit_kind', '?'), bool(data.get('deep')), bool(data.get('ignore')), checks, 0, prng_seed=data.get('prng_seed'))
+        run_case(ctx, cirq, cfg, circuit, data.get('circuit_kind', '?'), bool(data.get('deep')), bool(data.get('ignore')), checks, 0, prng_seed=data.get('prng_seed'), mutable=data.get('mutable'))
     failed = evaluate(ctx, checks)
     for i in sorted(failed):
         print('replay: Coq check fails:', checks[i]['stream'])
